@@ -28,7 +28,7 @@ var c19 = core.Register(&core.Prop{
 	},
 	Floors: func(c map[string]int64, tier string) []string {
 		var out []string
-		for _, k := range []string{"date_cases", "date_carried", "field_cases", "adddate_cases", "usetimezone_cases", "usetimezone_unknown", "timeformat_cases", "now_cases", "today_cases", "near_transition", "millsecond_beyond_2262"} {
+		for _, k := range []string{"date_cases", "date_carried", "field_cases", "adddate_cases", "usetimezone_cases", "usetimezone_unknown", "timeformat_cases", "now_cases", "today_cases", "near_transition", "millsecond_beyond_2262", "negated_extractor_cases", "fields_through_local_cases"} {
 			if c[k] == 0 {
 				out = append(out, "coverage floor: no "+k)
 			}
@@ -366,7 +366,14 @@ var c19Check = core.Mon(c19, "dates", func(w *core.W, c *DateCase) {
 			bad("usetimezone-zone", loc.String(), got.Location().String(), fmt.Sprintf("useTimezone(t, %q)", c.Str))
 			return
 		}
-		// and the fields follow the new zone
+		// and the fields follow the new zone, also when the converted time is kept in a local first
+		v3, err3, _, _ := resolveIn(data, "$z = useTimezone(t, str), [hour($z), day($z), timeFormat($z, '-0700')]")
+		a3, _ := v3.([]interface{})
+		c3 := civilOf(t.Unix(), 0, int64(o2))
+		if err3 != nil || len(a3) != 3 || !mvMatches(mvInt(c3.H), a3[0]) || !mvMatches(mvInt(c3.D), a3[1]) || a3[2] != refFormat(c3, int64(o2), "-0700") {
+			bad("usetimezone-through-local", fmt.Sprintf("[%d, %d, %s]", c3.H, c3.D, refFormat(c3, int64(o2), "-0700")), fmt.Sprint(show(v3), err3), fmt.Sprintf("$z = useTimezone(t, %q), [hour($z), day($z), timeFormat($z, '-0700')]", c.Str))
+			return
+		}
 		v2, err2, _, _ := resolveIn(data, "hour(useTimezone(t, str))")
 		want := civilOf(t.Unix(), 0, int64(o2)).H
 		if err2 != nil || !mvMatches(mvInt(want), v2) {
@@ -469,7 +476,30 @@ func checkFields(w *core.W, c *DateCase, bad func(string, interface{}, interface
 		fn string
 		v  int64
 	}{{"year", cv.Y}, {"month", cv.Mo}, {"day", cv.D}, {"hour", cv.H}, {"minute", cv.Mi}, {"second", cv.S}, {"weekDay", cv.Wd}, {"millSecond", ms}}
-	v, err, panicked, pv := resolveIn(data, "[year(t), month(t), day(t), hour(t), minute(t), second(t), weekDay(t), millSecond(t)]")
+	// the extractors are used the way formulas use them: directly, negated (addDate(t, 0, 0, -day(t))), and on a
+	// time that went through a local; none of that may disturb a later plain use
+	form := "[year(t), month(t), day(t), hour(t), minute(t), second(t), weekDay(t), millSecond(t)]"
+	switch (t.Unix() + int64(t.Nanosecond())) % 3 {
+	case 1:
+		neg, errN, pN, pvN := resolveIn(data, "[-year(t), -month(t), -day(t), -hour(t), -minute(t), -second(t), -weekDay(t), -millSecond(t), addDate(t, 0, 0, -day(t) + day(t))]")
+		w.Eval(1)
+		w.Count("negated_extractor_cases")
+		if pN || errN != nil {
+			bad("fields-error", "numbers", fmt.Sprint(pvN, errN), "negated extractors on "+label)
+			return
+		}
+		na, _ := neg.([]interface{})
+		for i, e := range want {
+			if i < len(na) && !mvMatches(mvInt(-e.v), na[i]) {
+				bad("field:-"+e.fn, -e.v, show(na[i]), fmt.Sprintf("-%s(%s) for %s", e.fn, label, t.Format(time.RFC3339Nano)))
+				return
+			}
+		}
+	case 2:
+		form = "$z = t, [year($z), month($z), day($z), hour($z), minute($z), second($z), weekDay($z), millSecond($z)]"
+		w.Count("fields_through_local_cases")
+	}
+	v, err, panicked, pv := resolveIn(data, form)
 	w.Eval(1)
 	if panicked || err != nil {
 		bad("fields-error", "numbers", fmt.Sprint(pv, err), label)
